@@ -1263,7 +1263,7 @@ def main2(tier):
     log("[C18] translator validated on %d concrete runs (%d unit tests of the repository); %d emitters specified, %d unspecified"
         % (nval, ntests, len(t.specs), len(t.unspecified)))
     bodies = make_bodies(t, tier, H)
-    deadline = t0 + (900 if tier == "quick" else 3000)
+    deadline = time.time() + (900 if tier == "quick" else 3000)       # exploration only
     res = run_harnesses(bodies, depth=3, query_timeout_ms=60000, deadline=deadline)
 
     rep = common.Reporter(PID)
